@@ -60,6 +60,28 @@ public:
       QUILL_THROW(QuillError("`%X` as format modifier is not currently supported in format: " + _timestamp_format));
     }
 
+    // Only %H %M %S %I %k %l %s (and %r %R %T) are updated in the cached string. `%c`, or a time of
+    // day modifier written with a flag, a width or E/O (e.g. `%-H`, `%_I`, `%OS`, `%Ec`, `%EX`),
+    // would keep showing the cached time until the next recalculation
+    for (size_t pos = _timestamp_format.find('%'); pos != std::string::npos;)
+    {
+      size_t const end = _timestamp_format.find_first_not_of("-_0^#123456789EO", pos + 1);
+
+      if (end == std::string::npos)
+      {
+        break;
+      }
+
+      if ((_timestamp_format[end] == 'c') ||
+          ((end != pos + 1) && (std::string{"HMSIklsrRTX"}.find(_timestamp_format[end]) != std::string::npos)))
+      {
+        QUILL_THROW(QuillError("`" + _timestamp_format.substr(pos, end - pos + 1) +
+                               "` as format modifier is not currently supported in format: " + _timestamp_format));
+      }
+
+      pos = _timestamp_format.find('%', end + 1);
+    }
+
     // We first look for some special format modifiers and replace them
     _replace_all(_timestamp_format, "%r", "%I:%M:%S %p");
     _replace_all(_timestamp_format, "%R", "%H:%M");
